@@ -766,9 +766,11 @@ class AutoSerialize:
                 print(f"Unhandled group: {name} with attrs: {dict(subgrp.attrs)}")
                 raise ValueError(f"Unknown subgroup structure: {subgrp.path}")
 
-        # Remove attributes in skip_names that may have been set by __init__ (when using __new__)
+        # Remove attributes in skip_names that may have been set by __init__ (when using __new__).
+        # Only instance attributes: a skipped name may coincide with a property or a class
+        # attribute of this class, which cannot (and need not) be deleted from the instance.
         for name in skip_names:
-            if hasattr(obj, name):
+            if name in getattr(obj, "__dict__", {}):
                 delattr(obj, name)
 
         # attrs pattern: call post-init if defined
